@@ -14,7 +14,7 @@ from pyvc.contracts import (Any, Bool, Bytes, Callback, Const, DequeOf, Event, I
                             Opt, TupleOf, contract, iff, implies, ite, lemma, model)
 from pyvc.ext_c20 import ConcDict
 from contracts.c18_codecs import RF_USES
-from contracts.c20_rfcomm import both_dirs, wf_dlc, QMAX
+from contracts.c20_rfcomm import both_dirs, dir_inv, wf_dlc, QMAX
 from spec.rfcomm import FT_DISC, FT_DM, FT_SABM, FT_UA, FT_UIH, MCC_MSC, MCC_PN, mcc, msc_value, pn_value
 
 ENVIRONMENT = [
@@ -128,8 +128,8 @@ model(
         multiplexer=Inst('ghost:Mux#sm'),
         dlci=IntRange(2, 61),
         c_r=IntRange(0, 1),
-        role=OneOf(ROLE.INITIATOR, ROLE.RESPONDER),
-        state=OneOf(*ST),
+        role=IntRange(0, 1),
+        state=IntRange(0, 5),
         rx_max_frame_size=IntRange(23, 32767),
         rx_initial_credits=IntRange(1, 7),
         connection_result=Opt(Inst('ghost:Future#c')),
@@ -175,7 +175,13 @@ def ua_frame(self):
     return (FT_UA, 1 - self.c_r, self.dlci, 1, b'')
 
 
-SM_COMMON = dict(prop='C20', ghost=SM_GHOST, modifies=SM_MOD, inline=RF_INIT_INLINE, uses=RF_USES)
+SM_COMMON = dict(prop='C20', ghost=SM_GHOST, inline=RF_INIT_INLINE, uses=RF_USES)
+
+
+def sm_mod(*names):
+    return ['self.' + n if n in ('state', 'connection_result', 'disconnection_result') else 'ghost.' + n for n in names]
+
+
 
 contract(
     'bumble.rfcomm:DLC.on_sabm_frame',
@@ -189,6 +195,7 @@ contract(
         implies(old.self.state != ST.CONNECTING, unchanged_sm(self, old, ghost)),
     ],
     ensures_names=['connecting->connected', 'ignored-otherwise'],
+    modifies=sm_mod('state', 'out', 'opens'),
     **SM_COMMON,
 )
 
@@ -211,6 +218,7 @@ contract(
         implies(old.self.state != ST.CONNECTING and old.self.state != ST.DISCONNECTING, unchanged_sm(self, old, ghost)),
     ],
     ensures_names=['connecting->connected', 'disconnecting->disconnected', 'ignored-otherwise'],
+    modifies=sm_mod('state', 'connection_result', 'disconnection_result', 'out', 'mux_opened', 'mux_closed', 'c_resolved', 'd_resolved', 'closes'),
     **SM_COMMON,
 )
 
@@ -225,6 +233,7 @@ contract(
                 and ghost.mux_closed == old.ghost.mux_closed + [self.dlci] and ghost.closes == old.ghost.closes + 1),
     ],
     ensures_names=['connected->disconnected'],
+    modifies=sm_mod('state', 'out', 'mux_closed', 'closes'),
     **SM_COMMON,
 )
 
@@ -239,6 +248,7 @@ contract(
         ghost.d_cancelled == old.ghost.d_cancelled + (1 if old.self.disconnection_result is not None else 0),
     ],
     ensures_names=['reset-and-close', 'futures-forgotten', 'connect-waiter-released', 'disconnect-waiter-released'],
+    modifies=sm_mod('state', 'connection_result', 'disconnection_result', 'closes', 'c_cancelled', 'd_cancelled'),
     **SM_COMMON,
 )
 
@@ -252,11 +262,12 @@ contract(
     ensures=lambda self, old, ghost: [
         old.self.state == ST.INIT,
         self.state == ST.CONNECTING and ghost.out == old.ghost.out + [(FT_SABM, self.c_r, self.dlci, 1, b'')],
-        self.connection_result is ghost.new_c,
+        self.connection_result is not None,
     ],
     ensures_names=['only-from-init', 'sabm-sent', 'waiter-registered'],
     raises={core.InvalidStateError: lambda self, old, ghost: [old.self.state != ST.INIT, unchanged_sm(self, old, ghost)]},
     stubs=LOOP_C,
+    modifies=sm_mod('state', 'connection_result', 'out'),
     **SM_COMMON,
 )
 
@@ -272,6 +283,7 @@ contract(
     ],
     ensures_names=['only-from-init', 'pn-response-with-local-parameters'],
     raises={core.InvalidStateError: lambda self, old, ghost: [old.self.state != ST.INIT, unchanged_sm(self, old, ghost)]},
+    modifies=sm_mod('state', 'out'),
     **SM_COMMON,
 )
 
@@ -282,12 +294,13 @@ contract(
     ensures=lambda self, old, ghost: [
         old.self.state == ST.CONNECTED,
         self.state == ST.DISCONNECTING and ghost.out == old.ghost.out + [(FT_DISC, self.c_r, self.dlci, 1, b'')],
-        self.disconnection_result is ghost.new_d,
+        self.disconnection_result is not None,
     ],
     ensures_names=['only-from-connected', 'disc-sent', 'waiter-registered'],
     raises={core.InvalidStateError: lambda self, old, ghost: [old.self.state != ST.CONNECTED, unchanged_sm(self, old, ghost)]},
     stubs=LOOP_D,
     note='up to the final await of the disconnection future (resolved by on_ua_frame)',
+    modifies=sm_mod('state', 'disconnection_result', 'out'),
     **SM_COMMON,
 )
 
@@ -361,13 +374,20 @@ MUX_GHOST = dict(out=FRAMES, asked=ListOf(Int), params=Opt(TupleOf(IntRange(23, 
                  o_resolved=Int, o_value=Int, new_o=Inst('ghost:Future#o'))
 
 
+def same_dlc(a, b):
+    """still registered, with its ledgers untouched (symbolically it is the same object and the frame condition covers every
+    field; spelled out so that the clause also means something on the deep-copied `old` of a native replay)"""
+    return (a is not None and a.dlci == b.dlci and a.tx_credits == b.tx_credits and a.rx_credits == b.rx_credits and a.tx_buffer == b.tx_buffer
+            and a.mtu == b.mtu)
+
+
 def others_kept(self, old, dlci):
-    """the table is keyed by DLCI: every other data link is still there, the same object (its state is covered by the frame condition)"""
-    return [k == dlci or self.dlcs.get(k) is d for (k, d) in old.self.dlcs.items()] + [len(self.dlcs) <= len(old.self.dlcs) + 1]
+    """the table is keyed by DLCI: every other data link is still there, untouched"""
+    return [k == dlci or same_dlc(self.dlcs.get(k), d) for (k, d) in old.self.dlcs.items()] + [len(self.dlcs) <= len(old.self.dlcs) + 1]
 
 
 def table_unchanged(self, old):
-    return [self.dlcs.get(k) is d for (k, d) in old.self.dlcs.items()] + [len(self.dlcs) == len(old.self.dlcs)]
+    return [same_dlc(self.dlcs.get(k), d) for (k, d) in old.self.dlcs.items()] + [len(self.dlcs) == len(old.self.dlcs)]
 
 
 def new_dlc_ok(self, new, pn, rx_max_frame_size, rx_initial_credits):
@@ -440,10 +460,11 @@ for _n in (0, 1):
 
 
 # --- Multiplexer.on_dlc_open_complete / on_dlc_disconnection -----------------------------------------------------
+model('bumble.rfcomm:Multiplexer#oc', fields=dict(state=IntRange(0, 6), open_result=Opt(Inst('ghost:Future#o'))))
 contract(
     'bumble.rfcomm:Multiplexer.on_dlc_open_complete',
     prop='C20',
-    params=dict(self=mux_model(0), dlc=DLC_T),
+    params=dict(self=Inst('bumble.rfcomm:Multiplexer#oc'), dlc=DLC_T),
     ghost=MUX_GHOST,
     ensures=lambda self, dlc, old, ghost: [
         self.state == MST.CONNECTED,
@@ -462,11 +483,11 @@ for _n in (0, 1):
         'bumble.rfcomm:Multiplexer.on_dlc_disconnection',
         key=f'bumble.rfcomm:Multiplexer.on_dlc_disconnection@n{_n}',
         prop='C20',
-        params=dict(self=mux_model(_n), dlc=DLC_T),
+        params=dict(self=Inst(model(f'bumble.rfcomm:Multiplexer#dd{_n}', fields=dict(dlcs=ConcDict(IntRange(2, 61), DLC_T, _n))).name), dlc=DLC_T),
         ghost=MUX_GHOST,
         ensures=lambda self, dlc, old, ghost: [self.dlcs.get(dlc.dlci) is None, len(self.dlcs) >= len(old.self.dlcs) - 1]
-        + [k == dlc.dlci or self.dlcs.get(k) is d for (k, d) in old.self.dlcs.items()],
-        ensures_names=['removed-by-dlci', 'only-that-entry'],
+        + [k == dlc.dlci or same_dlc(self.dlcs.get(k), d) for (k, d) in old.self.dlcs.items()],
+        ensures_names=['removed-by-dlci', 'at-most-one-removed', 'others-kept'],
         modifies=['self.dlcs'],
         note=f'bounded: {_n} data links in Multiplexer.dlcs',
     )
@@ -598,3 +619,136 @@ for _cls in ('DLC', 'Multiplexer'):
         ensures_names=['handler-of-the-frame-type-once'],
         modifies=['ghost.handled'],
     )
+
+
+# ---------------------------------------------------------------------------
+# two ends: set-up and teardown leave both in matching states (ghost drivers running the real code of both ends;
+# the driver is the order-preserving link: it hands every frame one end sent to the other end)
+# ---------------------------------------------------------------------------
+def wire_send(ghost, frame):
+    ghost.w2 = ghost.w1
+    ghost.w1 = (frame.type, frame.c_r, frame.dlci, frame.p_f, frame.information)
+    ghost.nsent = ghost.nsent + 1
+
+
+def fut_any_set(ghost, value):
+    ghost.resolved = ghost.resolved + 1
+
+
+model('ghost:Future#any', fields={}, methods={'set_result': Callback('set_result', effect=fut_any_set), 'cancel': Callback('cancel', effect=lambda ghost: None)})
+model('ghost:Loop#any', fields={}, methods={'create_future': Callback('create_future', returns=Inst('ghost:Future#any'))})
+LOOP_ANY = {asyncio.get_running_loop: Callback('get_running_loop', returns=Inst('ghost:Loop#any'))}
+from pyvc.contracts import EmptyDict  # noqa: E402
+
+model(
+    'bumble.rfcomm:Multiplexer#wire',
+    fields=dict(role=IntRange(0, 1), state=IntRange(0, 6), l2cap_channel=Inst('ghost:L2'), dlcs=EmptyDict(), acceptor=Opt(Callback('acceptor', effect=acceptor_effect)),
+                open_pn=Const(None), open_result=Const(None)),
+    methods={'send_frame': Callback('send_frame', effect=wire_send), 'emit': Callback('emit', effect=mux_emit)},
+)
+WIRE_T = TupleOf(Int, Int, Int, Int, Bytes)
+WIRE_GHOST = dict(w1=WIRE_T, w2=WIRE_T, nsent=Int, resolved=Int, asked=ListOf(Int), params=TupleOf(IntRange(23, 32767), IntRange(1, 7)), emitted=Int, opens=Int, closes=Int)
+
+
+def delivered(w):
+    """the frame the peer receives: the fields that were sent (byte encoding and decoding: C18)"""
+    return rfcomm.RFCOMM_Frame(w[0], w[1], w[2], w[3], w[4], w[0] == rfcomm.FrameType.UIH and w[3] == 1)
+
+
+def lemma_dlc_setup(amux, bmux, channel, max_frame_size, initial_credits, ghost):
+    dlci = 2 * channel
+    amux.open_dlc(channel, max_frame_size, initial_credits)  # A: PN command
+    assert ghost.nsent == 1
+    bmux.on_uih_frame(delivered(ghost.w1))  # B: acceptor asked, data link created, PN response
+    assert ghost.nsent == 2
+    amux.on_uih_frame(delivered(ghost.w1))  # A: data link created, SABM
+    assert ghost.nsent == 3 and ghost.w1[0] == FT_SABM and ghost.w1[2] == dlci
+    b = bmux.dlcs[dlci]
+    b.on_frame(delivered(ghost.w1))  # B: UA, modem status; connected
+    assert ghost.nsent == 5 and ghost.w2[0] == FT_UA and ghost.w2[2] == dlci
+    a = amux.dlcs[dlci]
+    a.on_frame(delivered(ghost.w2))  # A: connected, open_dlc() released
+    # both ends connected, the multiplexer is ready for the next open
+    assert a.state == ST.CONNECTED and b.state == ST.CONNECTED
+    assert amux.state == MST.CONNECTED and bmux.state == MST.CONNECTED
+    assert ghost.opens == 1  # the acceptor side signals 'open' once
+    # the negotiated parameters mirror each other
+    assert a.tx_credits == b.rx_credits and b.tx_credits == a.rx_credits
+    assert a.tx_credits == ghost.params[1] and b.tx_credits == initial_credits
+    assert a.tx_max_frame_size == b.rx_max_frame_size and b.tx_max_frame_size == a.rx_max_frame_size
+    assert a.mtu <= b.rx_max_frame_size and b.mtu <= a.rx_max_frame_size
+    assert a.c_r == 1 and b.c_r == 0 and a.dlci == dlci and b.dlci == dlci
+    # ... and the pair starts in the stream invariant (nothing written, nothing in flight)
+    for cl in wf_dlc(a) + wf_dlc(b):
+        assert cl
+    for cl in dir_inv(a.tx_credits, a.tx_buffer, b'', 0, 0, b'', b.rx_credits, b'', 0, 0) + dir_inv(b.tx_credits, b.tx_buffer, b'', 0, 0, b'', a.rx_credits, b'', 0, 0):
+        assert cl
+
+
+lemma(
+    'rfcomm_dlc_setup',
+    lemma_dlc_setup,
+    prop='C20',
+    params=dict(amux=Inst('bumble.rfcomm:Multiplexer#wire', role=Const(ROLE.INITIATOR), acceptor=Const(None)),
+                bmux=Inst('bumble.rfcomm:Multiplexer#wire', role=Const(ROLE.RESPONDER), acceptor=Callback('acceptor', effect=acceptor_effect)),
+                channel=IntRange(1, 30), max_frame_size=IntRange(23, 32767), initial_credits=IntRange(1, 7)),
+    ghost=WIRE_GHOST,
+    requires=lambda amux, bmux, ghost: [amux.state == MST.CONNECTED, bmux.state == MST.CONNECTED, amux.l2cap_channel.peer_mtu >= 48, bmux.l2cap_channel.peer_mtu >= 48,
+                                        ghost.nsent == 0, ghost.opens == 0],
+    inline=RF_INIT_INLINE + ['Multiplexer.*', 'DLC.*', 'RFCOMM_MCC_PN.*', 'RFCOMM_MCC_MSC.*'],
+    uses=RF_USES,
+    stubs=LOOP_ANY,
+)
+
+
+def lemma_dlc_teardown(a, b):
+    """a closes the data link; the link hands a's DISC to b and b's UA back to a"""
+    a.disconnect()
+    b.on_disc_frame(None)
+    a.on_ua_frame(None)
+
+
+lemma(
+    'rfcomm_dlc_teardown',
+    lemma_dlc_teardown,
+    prop='C20',
+    params=dict(a=SM, b=SM),
+    ghost=SM_GHOST,
+    requires=lambda a, b: [a.state == ST.CONNECTED, b.state == ST.CONNECTED, a.dlci == b.dlci, consistent_c_r(a), consistent_c_r(b), a.c_r != b.c_r],
+    ensures=lambda a, b, old, ghost: [
+        # both ends leave CONNECTED, both are removed from their multiplexer, both signal 'close' once
+        a.state == ST.DISCONNECTED and b.state == ST.DISCONNECTED,
+        ghost.mux_closed == old.ghost.mux_closed + [b.dlci, a.dlci] and ghost.closes == old.ghost.closes + 2,
+        # on the wire: DISC from a, UA (carrying a's C/R) from b
+        ghost.out == old.ghost.out + [(FT_DISC, a.c_r, a.dlci, 1, b''), (FT_UA, a.c_r, a.dlci, 1, b'')],
+        ghost.d_resolved == old.ghost.d_resolved + 1,
+    ],
+    ensures_names=['matching-states', 'both-removed-and-closed', 'disc-then-ua', 'disconnect-released'],
+    uses=['bumble.rfcomm:DLC.disconnect', 'bumble.rfcomm:DLC.on_disc_frame', 'bumble.rfcomm:DLC.on_ua_frame'],
+)
+
+
+# --- Multiplexer.open_dlc ------------------------------------------------------------------------------------------
+model('bumble.rfcomm:Multiplexer#open', fields=dict(role=IntRange(0, 1), state=IntRange(0, 6), open_pn=Opt(PN), open_result=Opt(Inst('ghost:Future#o'))),
+      methods={'send_frame': Callback('send_frame', effect=sm_send)})
+LOOP_O = {asyncio.get_running_loop: Callback('get_running_loop', returns=Inst('ghost:Loop#o'))}
+contract(
+    'bumble.rfcomm:Multiplexer.open_dlc',
+    prop='C20',
+    params=dict(self=Inst('bumble.rfcomm:Multiplexer#open'), channel=IntRange(1, 30), max_frame_size=IntRange(23, 32767), initial_credits=IntRange(1, 7)),
+    ghost=dict(out=FRAMES, new_o=Inst('ghost:Future#o')),
+    ensures=lambda self, channel, max_frame_size, initial_credits, old, ghost: [
+        old.self.state == MST.CONNECTED,
+        # PN command for DLCI 2*channel with the local parameters, remembered until the response arrives
+        self.state == MST.OPENING and self.open_pn.dlci == 2 * channel and self.open_pn.max_frame_size == max_frame_size and self.open_pn.initial_credits == initial_credits,
+        ghost.out == old.ghost.out + [(FT_UIH, 1 if self.role == ROLE.INITIATOR else 0, 0, 0, mcc(MCC_PN, 1, pn_value(2 * channel, 0xF0, 7, max_frame_size, initial_credits)))],
+        self.open_result is ghost.new_o,
+    ],
+    ensures_names=['only-when-connected', 'opening-with-local-parameters', 'pn-command-sent', 'waiter-registered'],
+    raises={core.InvalidStateError: lambda self, old, ghost: [old.self.state != MST.CONNECTED, self.state == old.self.state, ghost.out == old.ghost.out]},
+    modifies=['self.state', 'self.open_pn', 'self.open_result', 'ghost.out'],
+    inline=RF_INIT_INLINE,
+    uses=RF_USES,
+    stubs=LOOP_O,
+    note='up to the final await of the open_result future (resolved by on_dlc_open_complete, rejected by on_dm_frame)',
+)
